@@ -544,6 +544,14 @@ def make_cases(r, B, model, n_cases):
             c["base"] = {"instr": None}
             c["intv"] = {"instr": {"start": start, "stop": stop, **rand_overwrites(r, B, tvec)}}
         cases.append(c)
+    # directed: a scenario on a PRECOMPUTED function parameter (its function depends on databook quantities only), run without programs:
+    # before Y the function must still be evaluated, from Y on the overwrite holds (the case every Model.build branch order must get right)
+    dep = (model.get("spec") or {}).get("_dep_on_aux") if isinstance(model, dict) else None
+    if dep and dep in B.parset.pars:
+        Y, ytag = pick_Y(r, tvec)
+        pops_ = list(B.parset.pars[dep].ts.keys())
+        ent = [{"kind": "function", "par": dep, "pop": pop, "t": [Y, Y + 2 * dt], "y": [r.choice([0.05, 0.3, 0.9]), r.choice([0.0, 0.5, 2.0])]} for pop in r.sample(pops_, r.randint(1, len(pops_)))]
+        cases.append({"model": model, "kind": "scenario", "Y": Y, "ytag": ytag, "sub": "precomputed_function", "base": {"instr": None}, "intv": {"instr": None, "scen": {"interp": r.choice(["linear", "previous"]), "entries": ent}}})
     return cases
 
 
